@@ -474,10 +474,19 @@ func (g *c08Gen) family(f int) {
 	case 2: // the same activity to two local inboxes
 		body := g.remoteAct(Pick(r, []string{"Like", "Announce"}), J{"object": st.Note1, "to": []string{st.Alice.ID, st.Carol.ID}})
 		g.reqs = append(g.reqs, inboxReq(g.id(), st.Alice, hostA, body), inboxReq(g.id(), st.Carol, hostA, body))
-	case 3: // Likes / Announces of one owned object
+	case 3: // Likes / Announces of one owned object, or of the same two owned objects listed in different orders
 		obj := Pick(r, []string{st.Note1, st.Note2})
+		two := r.Intn(3) == 0
 		for i, n := 0, 2+r.Intn(2); i < n; i++ {
-			g.reqs = append(g.reqs, inboxReq(g.id(), Pick(r, boxes), hostA, g.remoteAct(Pick(r, []string{"Like", "Announce"}), J{"object": obj})))
+			var o interface{} = obj
+			if two {
+				if (i+r.Intn(2))%2 == 0 {
+					o = []string{st.Note1, st.Note2}
+				} else {
+					o = []string{st.Note2, st.Note1}
+				}
+			}
+			g.reqs = append(g.reqs, inboxReq(g.id(), Pick(r, boxes), hostA, g.remoteAct(Pick(r, []string{"Like", "Announce"}), J{"object": o})))
 		}
 	case 4: // Follows of one actor with auto-accept
 		froms := []string{st.Dave, st.Erin, st.Bob.ID}
